@@ -260,3 +260,7 @@ import props_c18
 import props_c19
 props_c18.register(_sys.modules[__name__])
 props_c19.register(_sys.modules[__name__])
+import props_c11
+props_c11.register(_sys.modules[__name__])
+import props_c13
+props_c13.register(_sys.modules[__name__])
